@@ -298,3 +298,97 @@ Proof.
   destruct wf_parts as (WL & WT & WM & _).
   repeat split; intros v Hv; apply Rgt_not_eq; apply Rval_pos; [apply WL | apply WT | apply WM]; exact Hv.
 Qed.
+
+(* ------------------------------------------------------------------ the pow-abstract bodies (compared bit for bit with Python) are the same functions *)
+Lemma pw_agrees : forall x a b c d g,
+  convert_mass_pw RNum x a b = convert_mass RNum x a b /\
+  convert_length_pw RNum x a b = convert_length RNum x a b /\
+  convert_vel_pw RNum x a b c d = convert_vel RNum x a b c d /\
+  convert_acc_pw RNum (fun t => t * t) x a b c d = convert_acc RNum x a b c d /\
+  convert_G_pw RNum (fun t => t * t) (fun l => l * l * l) g a b c = convert_G RNum g a b c.
+Proof. intros. repeat split; reflexivity. Qed.
+
+(* ------------------------------------------------------------------ whole particles: units_convert_particle over R *)
+Definition conv_memberR (fn : string) (x lo ln to tn mo mn : R) : R :=
+  if String.eqb fn "convert_mass" then convert_mass RNum x mo mn
+  else if String.eqb fn "convert_length" then convert_length RNum x lo ln
+  else if String.eqb fn "convert_vel" then convert_vel RNum x lo ln to tn
+  else if String.eqb fn "convert_acc" then convert_acc RNum x lo ln to tn
+  else x.
+(* vals in the order of particle_conversion: m x y z r vx vy vz ax ay az; u = (l, t, m) unit values *)
+Definition conv_particleR (vals : list R) (u0 u1 : R * R * R) : list R :=
+  let '(lo, to, mo) := u0 in let '(ln, tn, mn) := u1 in
+  map (fun c => conv_memberR (snd (fst c)) (snd c) lo ln to tn mo mn) (combine particle_conversion vals).
+Definition unz (u : R * R * R) : Prop := fst (fst u) <> 0 /\ snd (fst u) <> 0 /\ snd u <> 0.
+
+Definition conv_list (pc : list (string * string)) (vals : list R) (lo ln to tn mo mn : R) : list R :=
+  map (fun c => conv_memberR (snd (fst c)) (snd c) lo ln to tn mo mn) (combine pc vals).
+
+Lemma member_roundtrip : forall fn x l0 l1 t0 t1 m0 m1, l0 <> 0 -> l1 <> 0 -> t0 <> 0 -> t1 <> 0 -> m0 <> 0 -> m1 <> 0 ->
+  conv_memberR fn (conv_memberR fn x l0 l1 t0 t1 m0 m1) l1 l0 t1 t0 m1 m0 = x.
+Proof.
+  intros fn x l0 l1 t0 t1 m0 m1 A B C D E F. unfold conv_memberR.
+  pose proof (roundtrip l0 l1 t0 t1 m0 m1) as R. do 6 (specialize (R ltac:(assumption))). destruct (R x) as (R1 & R2 & R3 & R4).
+  destruct (String.eqb fn "convert_mass"); [exact R1|]. destruct (String.eqb fn "convert_length"); [exact R2|].
+  destruct (String.eqb fn "convert_vel"); [exact R3|]. destruct (String.eqb fn "convert_acc"); [exact R4 | reflexivity].
+Qed.
+Lemma member_transitive : forall fn x l0 l1 l2 t0 t1 t2 m0 m1 m2, l1 <> 0 -> l2 <> 0 -> t0 <> 0 -> t1 <> 0 -> m1 <> 0 -> m2 <> 0 ->
+  conv_memberR fn (conv_memberR fn x l0 l1 t0 t1 m0 m1) l1 l2 t1 t2 m1 m2 = conv_memberR fn x l0 l2 t0 t2 m0 m2.
+Proof.
+  intros fn x l0 l1 l2 t0 t1 t2 m0 m1 m2 A B C D E F. unfold conv_memberR.
+  pose proof (transitive l0 l1 l2 t0 t1 t2 m0 m1 m2) as R. do 6 (specialize (R ltac:(assumption))). destruct (R x) as (R1 & R2 & R3 & R4).
+  destruct (String.eqb fn "convert_mass"); [exact R1|]. destruct (String.eqb fn "convert_length"); [exact R2|].
+  destruct (String.eqb fn "convert_vel"); [exact R3|]. destruct (String.eqb fn "convert_acc"); [exact R4 | reflexivity].
+Qed.
+
+Lemma conv_list_roundtrip : forall pc vals l0 l1 t0 t1 m0 m1, List.length pc = List.length vals ->
+  l0 <> 0 -> l1 <> 0 -> t0 <> 0 -> t1 <> 0 -> m0 <> 0 -> m1 <> 0 ->
+  conv_list pc (conv_list pc vals l0 l1 t0 t1 m0 m1) l1 l0 t1 t0 m1 m0 = vals.
+Proof.
+  unfold conv_list. induction pc as [|p pc IH]; intros [|v vals] l0 l1 t0 t1 m0 m1 H A B C D E F; try discriminate; [reflexivity|].
+  cbn [combine map fst snd]. injection H as H. f_equal; [apply member_roundtrip; assumption | apply IH; assumption].
+Qed.
+Lemma conv_list_transitive : forall pc vals l0 l1 l2 t0 t1 t2 m0 m1 m2, List.length pc = List.length vals ->
+  l1 <> 0 -> l2 <> 0 -> t0 <> 0 -> t1 <> 0 -> m1 <> 0 -> m2 <> 0 ->
+  conv_list pc (conv_list pc vals l0 l1 t0 t1 m0 m1) l1 l2 t1 t2 m1 m2 = conv_list pc vals l0 l2 t0 t2 m0 m2.
+Proof.
+  unfold conv_list. induction pc as [|p pc IH]; intros [|v vals] l0 l1 l2 t0 t1 t2 m0 m1 m2 H A B C D E F; try discriminate; [reflexivity|].
+  cbn [combine map fst snd]. injection H as H. f_equal; [apply member_transitive; assumption | apply IH; assumption].
+Qed.
+
+Theorem particle_roundtrip : forall vals u0 u1, List.length vals = List.length particle_conversion -> unz u0 -> unz u1 ->
+  conv_particleR (conv_particleR vals u0 u1) u1 u0 = vals.
+Proof.
+  intros vals [[l0 t0] m0] [[l1 t1] m1] H (A & B & C) (D & E & F). cbn [fst snd] in *. unfold conv_particleR.
+  apply (conv_list_roundtrip particle_conversion vals l0 l1 t0 t1 m0 m1); auto.
+Qed.
+Theorem particle_transitive : forall vals u0 u1 u2, List.length vals = List.length particle_conversion -> unz u0 -> unz u1 -> unz u2 ->
+  conv_particleR (conv_particleR vals u0 u1) u1 u2 = conv_particleR vals u0 u2.
+Proof.
+  intros vals [[l0 t0] m0] [[l1 t1] m1] [[l2 t2] m2] H (A & B & C) (D & E & F) (G1 & G2 & G3). cbn [fst snd] in *. unfold conv_particleR.
+  apply (conv_list_transitive particle_conversion vals l0 l1 l2 t0 t1 t2 m0 m1 m2); auto.
+Qed.
+
+(* a relative error delta of G (e.g. the 2^-49 of the binary64 G checked against the exact tables on every run) moves the square of a
+   Kepler period by at most delta/(1-delta) relative *)
+Theorem period_within_bound : forall G Gf delta k M a P Pf, 0 < G -> 0 <= delta < 1 -> Rabs (Gf - G) <= delta * G -> 0 < M -> 0 <= k * (a * a * a) ->
+  P * P * G * M = k * (a * a * a) -> Pf * Pf * Gf * M = k * (a * a * a) ->
+  Rabs (Pf * Pf - P * P) <= delta / (1 - delta) * (P * P).
+Proof.
+  intros G Gf delta k M a P Pf HG [Hd0 Hd1] HE HM Hk E1 E2.
+  assert (HGf : (1 - delta) * G <= Gf) by (unfold Rabs in HE; destruct (Rcase_abs (Gf - G)); nra).
+  assert (HGf0 : 0 < Gf) by nra.
+  set (K := k * (a * a * a)) in *.
+  assert (P2 : P * P = K / (G * M)) by (apply (Rmult_eq_reg_r (G * M)); [rewrite <- E1; field; nra | nra]).
+  assert (Pf2 : Pf * Pf = K / (Gf * M)) by (apply (Rmult_eq_reg_r (Gf * M)); [rewrite <- E2; field; nra | nra]).
+  rewrite P2, Pf2.
+  replace (K / (Gf * M) - K / (G * M)) with (K / (G * M) * ((G - Gf) / Gf)) by (field; nra).
+  rewrite Rabs_mult. rewrite (Rabs_right (K / (G * M))) by (apply Rle_ge, Rmult_le_pos; [exact Hk | apply Rlt_le, Rinv_0_lt_compat; nra]).
+  rewrite (Rmult_comm (delta / (1 - delta))). apply Rmult_le_compat_l; [apply Rmult_le_pos; [exact Hk | apply Rlt_le, Rinv_0_lt_compat; nra]|].
+  unfold Rdiv at 1. rewrite Rabs_mult, (Rabs_right (/ Gf)) by (apply Rle_ge, Rlt_le, Rinv_0_lt_compat; exact HGf0).
+  rewrite Rabs_minus_sym.
+  apply (Rmult_le_reg_r Gf); [exact HGf0|]. rewrite Rmult_assoc, Rinv_l, Rmult_1_r by lra.
+  apply Rle_trans with (delta * G); [exact HE|].
+  apply (Rmult_le_reg_r (1 - delta)); [lra|].
+  replace (delta / (1 - delta) * Gf * (1 - delta)) with (delta * Gf) by (field; lra). nra.
+Qed.
